@@ -41,6 +41,7 @@ var (
 	childFlag = flag.Bool("child", false, "run as supervised executor (internal)")
 	onlyFn    = flag.String("fn", "", "restrict to one function (debugging)")
 	noTable   = flag.Bool("notable", false, "skip the direct descriptor.Table differential (debugging)")
+	traceOut  = flag.String("trace", "", "write one line per case (fn, state, args, errno, diff, table) to this file (debugging)")
 	rep       *hx.Report
 	orc       *hx.Oracle
 )
@@ -52,6 +53,8 @@ const (
 	sigF16Alloc   = "F16:fd_renumber-host-allocation-proportional-to-target-fd"
 	sigF16Exhaust = "F16:fd_renumber-to-2^31-1-exhausts-host-memory"
 	sigF25        = "F25:poll_oneoff-sleeps-2^63-1ns-without-clock-subscription"
+	sigF61        = "F61:sock_recv-peek-writes-first-iovec-although-ri_data_len-is-0"
+	sigF62        = "F62:readv-rereads-iovec-entries-that-the-same-call-has-overwritten"
 	maxSaneSleep  = int64(1) << 62 // ~146 years
 )
 
@@ -227,7 +230,14 @@ func monitor(cs Case, o outcome, img []byte) []finding {
 		fs = append(fs, finding{"impl-violation", "C15:unexpected-exit:" + cs.Fn, fmt.Sprintf("%s(%s) exited the module", cs.Fn, fmtArgs(cs.Args)), nil})
 	}
 	if off, bad := outsideDesignated(r.Diff, designated(cs.Fn, cs.Args, img)); bad {
-		fs = append(fs, finding{"impl-violation", "C15:write-outside-designated:" + cs.Fn, fmt.Sprintf("%s(%s) [%s,%s] changed guest byte %d outside the output regions of its signature", cs.Fn, fmtArgs(cs.Args), cs.State, cs.Img, off), r.Diff})
+		sig := "C15:write-outside-designated:" + cs.Fn
+		if cs.Fn == "sock_recv" && u32(cs.Args[2]) == 0 && u32(cs.Args[3])&1 != 0 {
+			sig = sigF61
+		}
+		if (cs.Fn == "fd_read" || cs.Fn == "fd_pread" || cs.Fn == "sock_recv") && iovecAliased(img, u32(cs.Args[1]), u32(cs.Args[2])) {
+			sig = sigF62
+		}
+		fs = append(fs, finding{"impl-violation", sig, fmt.Sprintf("%s(%s) [%s,%s] changed guest byte %d outside the output regions of its signature", cs.Fn, fmtArgs(cs.Args), cs.State, cs.Img, off), r.Diff})
 	}
 	if r.Alloc > heapLimit {
 		sig := "C15:host-allocation-out-of-proportion:" + cs.Fn
@@ -257,6 +267,17 @@ func monitor(cs Case, o outcome, img []byte) []finding {
 	return fs
 }
 
+// iovecAliased: some non-empty buffer named by the first n iovec entries overlaps the iovec array itself.
+func iovecAliased(img []byte, iovs, n uint64) bool {
+	end := iovs + 8*n
+	for _, r := range iovRegions(img, iovs, n) {
+		if r.len > 0 && r.off < end && iovs < r.off+r.len && r.off+r.len <= uint64(len(img)) {
+			return true
+		}
+	}
+	return false
+}
+
 func firstLines(s string, n int) string {
 	ls := strings.Split(strings.TrimSpace(s), "\n")
 	if len(ls) > n {
@@ -277,6 +298,7 @@ var (
 	imgMu     sync.Mutex
 	imgCache  = map[string][]byte{}
 	modelled  = map[string]bool{}
+	modelled2 = map[string]bool{} // the second batch (alternatives, self-clipped regions)
 	pollFixed bool
 )
 
@@ -354,23 +376,18 @@ func setupOracle() {
 	for _, f := range strings.Fields(orc.Ask("c15 modelled")) {
 		modelled[f] = true
 	}
+	for _, f := range strings.Fields(orc.Ask("c15 modelled2")) {
+		modelled2[f] = true
+	}
 }
 
-// compareModel asks the Lean model for errno / writes / table and compares with what the code did.
-func compareModel(cs Case, r *Result, img []byte) {
-	sendImage(cs.Img)
-	var sb strings.Builder
-	fmt.Fprintf(&sb, "c15 call %s %s %s", cs.Fn, cs.Img, tableKey(r.Before))
-	for _, a := range cs.Args {
-		fmt.Fprintf(&sb, " %d", a)
-	}
-	ans := orc.Ask(sb.String())
-	rep.Count("model:" + cs.Fn)
+// altResult: does one alternative of the model's answer describe what the code did? ("" = yes, else what differs)
+func altDiffers(cs Case, r *Result, img []byte, alt string) string {
 	want := append([]byte{}, img...)
 	dontCare := map[int]bool{}
 	var wantErr, wantTable string
 	var wantAlloc uint64
-	for _, tok := range strings.Fields(ans) {
+	for _, tok := range strings.Fields(alt) {
 		switch {
 		case strings.HasPrefix(tok, "e="):
 			wantErr = tok[2:]
@@ -385,49 +402,54 @@ func compareModel(cs Case, r *Result, img []byte) {
 				fmt.Sscanf(w[:i], "%d", &off)
 				bs, err := hex.DecodeString(w[i+1:])
 				if err != nil {
-					hx.Fatal("oracle answer %q", ans)
+					hx.Fatal("oracle answer %q", alt)
 				}
 				for k, b := range bs {
 					if off+k < len(want) {
 						want[off+k] = b
 						delete(dontCare, off+k)
 					} else {
-						mismatch(cs, "write-beyond-memory", ans, r)
-						return
+						return "write-beyond-memory"
 					}
 				}
 			} else if i := strings.IndexByte(w, '+'); i >= 0 {
 				var off, l int
 				fmt.Sscanf(w[:i], "%d", &off)
 				fmt.Sscanf(w[i+1:], "%d", &l)
+				if off+l > len(want) && modelled2[cs.Fn] {
+					return "write-beyond-memory" // the models of the second batch clip their regions themselves
+				}
 				for k := 0; k < l && off+k < len(want); k++ {
 					dontCare[off+k] = true
 				}
 			} else {
-				hx.Fatal("oracle answer %q", ans)
+				hx.Fatal("oracle answer %q", alt)
 			}
 		default:
-			hx.Fatal("oracle answer %q to %q", ans, sb.String())
+			hx.Fatal("oracle answer %q for %s", alt, cs.Fn)
 		}
 	}
-	rep.Count("model-errno:" + cs.Fn + ":" + wantErr)
 	// errno
 	switch wantErr {
 	case "any":
+		if r.Err != "" || r.Exit {
+			return "errno"
+		}
+	case "nz":
+		if r.Err != "" || r.Exit || r.Errno == 0 {
+			return "errno"
+		}
 	case "panic":
 		if !strings.Contains(r.Err, "runtime error") {
-			mismatch(cs, "errno", ans, r)
-			return
+			return "errno"
 		}
 	case "exit":
 		if !r.Exit {
-			mismatch(cs, "errno", ans, r)
-			return
+			return "errno"
 		}
 	default:
 		if r.Err != "" || fmt.Sprint(r.Errno) != wantErr {
-			mismatch(cs, "errno", ans, r)
-			return
+			return "errno"
 		}
 	}
 	// memory
@@ -438,18 +460,119 @@ func compareModel(cs Case, r *Result, img []byte) {
 	}
 	for i := range got {
 		if got[i] != want[i] && !dontCare[i] {
-			mismatch(cs, fmt.Sprintf("memory@%d", i), ans, r)
-			return
+			return fmt.Sprintf("memory@%d", i)
 		}
 	}
 	if wantTable != "" && wantTable != tableKey(r.After) {
-		mismatch(cs, "table", ans, r)
-		return
+		return "table"
+	}
+	if wantTable == "" && modelled2[cs.Fn] && tableKey(r.Before) != tableKey(r.After) {
+		return "table" // an alternative without t= leaves the table as it was
 	}
 	// allocation predicted by the model (descriptor-table growth): measured within [a, 2.5a + 1 MiB]
 	if wantAlloc > 1<<16 && (r.Alloc < wantAlloc || r.Alloc > wantAlloc*5/2+1<<20) {
-		mismatch(cs, "alloc", ans, r)
+		return "alloc"
 	}
+	return ""
+}
+
+var (
+	askMu        sync.Mutex
+	dirOrderSent string
+	desigSeen    sync.Map
+)
+
+func fnvRegions(rs []region) string {
+	n, h := 0, uint64(0)
+	for _, r := range rs {
+		if r.len == 0 {
+			continue
+		}
+		n++
+		h = (h*1000003 + r.off*65537 + r.len) % (1 << 40)
+	}
+	return fmt.Sprintf("%d %d", n, h)
+}
+
+// compareDesignated: the Lean table of designated output regions (Wz.Model.Wasi.designated, the one the theorems
+// speak about) and the Go table of spec.go (the one the monitor uses) agree on this case.
+func compareDesignated(cs Case, img []byte) {
+	k := cs.Fn + "|" + fmtArgs(cs.Args) + "|" + cs.Img
+	if _, dup := desigSeen.LoadOrStore(k, true); dup {
+		return
+	}
+	sendImage(cs.Img)
+	var sb strings.Builder
+	fmt.Fprintf(&sb, "c15 designated %s %s", cs.Fn, cs.Img)
+	for _, a := range cs.Args {
+		fmt.Fprintf(&sb, " %d", a)
+	}
+	ans := orc.Ask(sb.String())
+	rep.Count("designated-compared")
+	if want := fnvRegions(designated(cs.Fn, cs.Args, img)); ans != want {
+		rep.Violate(hx.Violation{Kind: "correspondence", Signature: "C15:designated-tables-differ:" + cs.Fn,
+			What:  fmt.Sprintf("%s(%s) [%s]: designated output regions of spec.go (count, hash) = %s, of Wz.Model.Wasi.designated = %s", cs.Fn, fmtArgs(cs.Args), cs.Img, want, ans),
+			Input: cs, Expected: want, Actual: ans})
+	}
+}
+
+// compareModel asks the Lean model for errno / writes / table and compares with what the code did.  The answer
+// is a list of alternatives separated by " | "; the code must match one of them.
+func compareModel(cs Case, r *Result, img []byte) {
+	sendImage(cs.Img)
+	var sb strings.Builder
+	op := "call"
+	if cs.State == "dirread" {
+		op = "callr" // the dirent caches of the directory descriptors hold the complete listings
+	}
+	fmt.Fprintf(&sb, "c15 %s %s %s %s", op, cs.Fn, cs.Img, tableKey(r.Before))
+	for _, a := range cs.Args {
+		fmt.Fprintf(&sb, " %d", a)
+	}
+	askMu.Lock()
+	if cs.Fn == "fd_readdir" && r.DirOrder != "" && r.DirOrder != dirOrderSent {
+		f := strings.Fields(r.DirOrder)
+		if len(f) != 2 || strings.Contains(r.DirOrder, "?") {
+			askMu.Unlock()
+			rep.Count("dir-order-unreadable")
+			return
+		}
+		if a := orc.Askf("c15 hostdirs %s %s", f[0], f[1]); a != "ok" {
+			hx.Fatal("oracle hostdirs: %s", a)
+		}
+		if dirOrderSent != "" {
+			rep.Count("dir-order-changed")
+		}
+		dirOrderSent = r.DirOrder
+	}
+	ans := orc.Ask(sb.String())
+	askMu.Unlock()
+	rep.Count("model:" + cs.Fn)
+	if ans == "bad-op" {
+		hx.Fatal("oracle refuses %q", sb.String())
+	}
+	alts := strings.Split(ans, " | ")
+	first := ""
+	for i, alt := range alts {
+		d := altDiffers(cs, r, img, alt)
+		if d == "" {
+			e := ""
+			for _, tok := range strings.Fields(alt) {
+				if strings.HasPrefix(tok, "e=") {
+					e = tok[2:]
+				}
+			}
+			rep.Count("model-errno:" + cs.Fn + ":" + e)
+			if len(alts) > 1 {
+				rep.Count(fmt.Sprintf("model-alt:%s:%d/%d", cs.Fn, i+1, len(alts)))
+			}
+			return
+		}
+		if first == "" {
+			first = d
+		}
+	}
+	mismatch(cs, first, ans, r)
 }
 
 func mismatch(cs Case, what, ans string, r *Result) {
@@ -473,8 +596,38 @@ var (
 	confirmed = map[string]int{}
 )
 
+var (
+	traceMu sync.Mutex
+	traceF  *os.File
+)
+
+func traceCase(cs Case, o outcome) {
+	if *traceOut == "" || o.res == nil {
+		return
+	}
+	traceMu.Lock()
+	defer traceMu.Unlock()
+	if traceF == nil {
+		f, err := os.Create(*traceOut)
+		if err != nil {
+			hx.Fatal("trace: %v", err)
+		}
+		traceF = f
+	}
+	var d []string
+	for _, r := range o.res.Diff {
+		d = append(d, fmt.Sprintf("%d+%d", r.Off, len(r.Hex)/2))
+	}
+	tb := ""
+	if tableKey(o.res.Before) != tableKey(o.res.After) {
+		tb = " T:" + tableKey(o.res.After)
+	}
+	fmt.Fprintf(traceF, "%s %s %s %s e=%d err=%q diff=%s%s\n", cs.Fn, cs.State, cs.Img, fmtArgs(cs.Args), o.res.Errno, firstLines(o.res.Err, 1), strings.Join(d, ","), tb)
+}
+
 func process(cs Case, o outcome) {
 	img := image(cs.Img)
+	traceCase(cs, o)
 	fs := monitor(cs, o, img)
 	if o.faulty {
 		hx.Fatal("child fault on %s(%s): %s", cs.Fn, fmtArgs(cs.Args), o.crash)
@@ -529,9 +682,10 @@ func process(cs Case, o outcome) {
 			rep.Count("wrote-memory")
 		}
 	}
-	if o.res != nil && modelled[cs.Fn] && cs.State != "sock" { // (the Lean footprint model knows files and directories, not sockets)
+	if o.res != nil && modelled[cs.Fn] {
 		compareModel(cs, o.res, img)
 	}
+	compareDesignated(cs, img)
 }
 
 func runAll(cases []Case) {
@@ -598,27 +752,10 @@ func main() {
 	r := hx.Rand()
 
 	var cases []Case
+	tieVariants()
 	if *hx.Replay != "" {
 		cases = replayCases(*hx.Replay)
 	} else {
-		// finding switches: replay the witnesses first
-		w := runAlone(Case{Fn: "poll_oneoff", Args: []uint64{0, 1024, 1 << 28, 2048}, State: "bare", Img: "zero", Engine: "interpreter", Tag: "witness"})
-		pollFixed = w.res != nil && w.res.Err == ""
-		v := "asis"
-		if pollFixed {
-			v = "fixed"
-		}
-		rep.Note("finding switch F15: poll_oneoff variant tied to the code = %s", v)
-		if a := orc.Askf("c15 variant %s", v); a != "ok" {
-			hx.Fatal("oracle variant: %s", a)
-		}
-		if l, err := net.Listen("tcp", "127.0.0.1:0"); err == nil {
-			l.Close()
-			sockStateOK = true
-		} else {
-			rep.Count("state-sock:skipped-no-loopback")
-			rep.Note("descriptor-table state `sock` skipped: cannot bind a loopback port (%v)", err)
-		}
 		for _, f := range specs {
 			if *onlyFn != "" && f.name != *onlyFn {
 				continue
@@ -662,6 +799,62 @@ func main() {
 	rep.Write(orc)
 }
 
+// tieVariants replays the witness of every finding switch (F15 poll_oneoff, F62 readv, F61 sock_recv PEEK) and tells
+// the oracle which variant of the model is tied to the code of this tree; it also probes the loopback interface.
+func tieVariants() {
+	// finding switches: replay the witnesses first
+	w := runAlone(Case{Fn: "poll_oneoff", Args: []uint64{0, 1024, 1 << 28, 2048}, State: "bare", Img: "zero", Engine: "interpreter", Tag: "witness"})
+	pollFixed = w.res != nil && w.res.Err == ""
+	v := "asis"
+	if pollFixed {
+		v = "fixed"
+	}
+	rep.Note("finding switch F15: poll_oneoff variant tied to the code = %s", v)
+	if a := orc.Askf("c15 variant %s", v); a != "ok" {
+		hx.Fatal("oracle variant: %s", a)
+	}
+	if l, err := net.Listen("tcp", "127.0.0.1:0"); err == nil {
+		l.Close()
+		sockStateOK = true
+	} else {
+		rep.Count("state-sock:skipped-no-loopback")
+		rep.Note("descriptor-table state `sock` skipped: cannot bind a loopback port (%v)", err)
+	}
+	{
+		// finding switch F62: the first iovec buffer covers the second entry, the file's bytes are an iovec
+		w := runAlone(Case{Fn: "fd_read", Args: []uint64{6, offIovC, 2, 16576}, State: "alias", Img: "struct", Engine: "interpreter", Tag: "witness"})
+		v3 := "fixed"
+		if w.res != nil {
+			for _, d := range w.res.Diff {
+				if d.Off == 4096 {
+					v3 = "asis"
+				}
+			}
+		}
+		rep.Note("finding switch F62: readv variant tied to the code = %s", v3)
+		if a := orc.Askf("c15 variant3 %s", v3); a != "ok" {
+			hx.Fatal("oracle variant3: %s", a)
+		}
+	}
+	if sockStateOK {
+		// finding switch F61: sock_recv with RI_RECV_PEEK and ri_data_len = 0
+		w := runAlone(Case{Fn: "sock_recv", Args: []uint64{4, 0, 0, 1, 0xffc0, 0x4140}, State: "sock", Img: "struct", Engine: "interpreter", Tag: "witness"})
+		v2 := "asis"
+		if w.res != nil && w.res.Err == "" {
+			v2 = "fixed"
+			for _, d := range w.res.Diff {
+				if d.Off == 256 {
+					v2 = "asis"
+				}
+			}
+		}
+		rep.Note("finding switch F61: sock_recv variant tied to the code = %s", v2)
+		if a := orc.Askf("c15 variant2 %s", v2); a != "ok" {
+			hx.Fatal("oracle variant2: %s", a)
+		}
+	}
+}
+
 func replayCases(path string) []Case {
 	raw, err := os.ReadFile(path)
 	if err != nil {
@@ -692,9 +885,6 @@ func replayCases(path string) []Case {
 		if json.Unmarshal(b.Detail, &d) == nil && d.Input.Fn != "" {
 			cs = append(cs, d.Input)
 		}
-	}
-	if a := orc.Askf("c15 variant asis"); a != "ok" {
-		hx.Fatal("oracle variant: %s", a)
 	}
 	return cs
 }
